@@ -25,6 +25,64 @@ thread_local! {
 /// payload of the unwind that stands for "does not terminate after expiry"
 pub struct Runaway;
 
+/// payload of the unwind that stands for "searches on without ever consulting the limit"
+pub struct Unpolled;
+
+/// Node-bounded mode (always on in `replay-case`, which is also how a stalled worker's case
+/// is triaged by the driver): the engine's TRACE events (two per search node) are counted
+/// and a search that produces more than `UNPOLLED_EVENT_BOUND` of them without a single poll
+/// of its time limit in between is unwound and reported as not terminating. The count is a
+/// pure function of the code and the case, unlike a wall-clock watchdog.
+pub static NODE_MODE: std::sync::atomic::AtomicBool = std::sync::atomic::AtomicBool::new(false);
+pub const UNPOLLED_EVENT_BOUND: u64 = 20_000_000;
+
+pub fn node_mode() -> bool {
+    NODE_MODE.load(std::sync::atomic::Ordering::Relaxed)
+}
+
+thread_local! {
+    static EVENTS_SINCE_POLL: Cell<u64> = const { Cell::new(0) };
+    static OBS_NEST: Cell<u32> = const { Cell::new(0) };
+}
+
+fn count_node_event() {
+    let n = EVENTS_SINCE_POLL.with(|c| {
+        c.set(c.get() + 1);
+        c.get()
+    });
+    if n > UNPOLLED_EVENT_BOUND {
+        EVENTS_SINCE_POLL.with(|c| c.set(0));
+        std::panic::panic_any(Unpolled)
+    }
+}
+
+fn is_node_event(meta: &Metadata<'_>) -> bool {
+    node_mode() && meta.is_event() && *meta.level() == tracing::Level::TRACE && meta.target().starts_with("chess_engine")
+}
+
+/// run `f` under the pass observer (and, in node mode, the node counter)
+pub fn observed<R>(f: impl FnOnce() -> R) -> R {
+    struct Nest;
+    impl Drop for Nest {
+        fn drop(&mut self) {
+            OBS_NEST.with(|n| n.set(n.get() - 1));
+        }
+    }
+    OBS_NEST.with(|n| n.set(n.get() + 1));
+    let _g = Nest;
+    EVENTS_SINCE_POLL.with(|c| c.set(0));
+    tracing::subscriber::with_default(PassObserver, f)
+}
+
+/// in node mode: run an arbitrary search closure under the node counter; Err = unwound as unpolled
+pub fn node_guarded<R>(f: impl FnOnce() -> R) -> R {
+    if node_mode() && OBS_NEST.with(|n| n.get()) == 0 {
+        observed(f)
+    } else {
+        f()
+    }
+}
+
 pub const POST_EXPIRY_POLL_BOUND: u64 = 10_000;
 
 pub struct CountingTimeout {
@@ -40,6 +98,7 @@ impl CountingTimeout {
         PASSES_AFTER_EXPIRY.with(|f| f.set(0));
         LAST_EVENT_POLLS.with(|f| f.set(u64::MAX));
         PASSES_WITHOUT_POLL.with(|f| f.set(0));
+        EVENTS_SINCE_POLL.with(|f| f.set(0));
         CountingTimeout { limit, expired_at: Cell::new(None) }
     }
     pub fn polls(&self) -> u64 {
@@ -49,6 +108,7 @@ impl CountingTimeout {
 
 impl Timeout for CountingTimeout {
     fn is_complete(&self) -> bool {
+        EVENTS_SINCE_POLL.with(|c| c.set(0));
         let p = POLLS.with(|c| {
             let v = c.get();
             c.set(v + 1);
@@ -120,17 +180,17 @@ fn wanted(meta: &Metadata<'_>) -> bool {
 
 impl Subscriber for PassObserver {
     fn register_callsite(&self, meta: &'static Metadata<'static>) -> Interest {
-        if wanted(meta) {
+        if wanted(meta) || is_node_event(meta) {
             Interest::always()
         } else {
             Interest::never()
         }
     }
     fn enabled(&self, meta: &Metadata<'_>) -> bool {
-        wanted(meta)
+        wanted(meta) || is_node_event(meta)
     }
     fn max_level_hint(&self) -> Option<tracing::level_filters::LevelFilter> {
-        Some(tracing::level_filters::LevelFilter::DEBUG)
+        Some(if node_mode() { tracing::level_filters::LevelFilter::TRACE } else { tracing::level_filters::LevelFilter::DEBUG })
     }
     fn new_span(&self, _: &Attributes<'_>) -> Id {
         Id::from_u64(1)
@@ -138,6 +198,10 @@ impl Subscriber for PassObserver {
     fn record(&self, _: &Id, _: &Record<'_>) {}
     fn record_follows_from(&self, _: &Id, _: &Id) {}
     fn event(&self, event: &Event<'_>) {
+        if *event.metadata().level() == tracing::Level::TRACE {
+            count_node_event();
+            return;
+        }
         let mut v = DepthVisitor { depth: None, is_start: false };
         event.record(&mut v);
         if v.is_start {
@@ -201,6 +265,7 @@ pub struct Profile {
 
 pub enum SearchError {
     Runaway,
+    Unpolled,
     Panic(String),
 }
 
@@ -215,12 +280,14 @@ pub fn run_search(board: &Board, tf: &ThreeFold, limit: u64, positional: bool) -
 pub fn run_search_on(e: &mut Engine, board: &Board, tf: &ThreeFold, limit: u64, positional: bool) -> Result<((Option<ChessMove>, Score), u16, u64, bool), SearchError> {
     let t = CountingTimeout::new(limit);
     e.positional = positional;
-    let r = std::panic::catch_unwind(std::panic::AssertUnwindSafe(|| e.search(board, tf, &t)));
+    let r = node_guarded(|| std::panic::catch_unwind(std::panic::AssertUnwindSafe(|| e.search(board, tf, &t))));
     match r {
         Ok(x) => Ok((x, e.max_depth, t.polls(), t.expired_at.get().is_some())),
         Err(p) => {
             if p.is::<Runaway>() {
                 Err(SearchError::Runaway)
+            } else if p.is::<Unpolled>() {
+                Err(SearchError::Unpolled)
             } else {
                 let loc = crate::fw::LAST_PANIC_LOC.with(|l| l.borrow_mut().take()).unwrap_or_default();
                 Err(SearchError::Panic(format!("{} {loc}", crate::fw::panic_message(&*p))))
@@ -228,6 +295,25 @@ pub fn run_search_on(e: &mut Engine, board: &Board, tf: &ThreeFold, limit: u64, 
         }
     }
 }
+
+/// a search under a caller-supplied limit (e.g. the engine's own wall-clock timeout); in node
+/// mode it runs under the node counter. Err = panic message or the "unpolled" verdict.
+pub fn search_plain<T: chess_engine::TimeoutRef>(e: &mut Engine, board: &Board, tf: &ThreeFold, t: T) -> Result<(Option<ChessMove>, Score), String> {
+    let r = node_guarded(|| std::panic::catch_unwind(std::panic::AssertUnwindSafe(|| e.search(board, tf, t))));
+    match r {
+        Ok(x) => Ok(x),
+        Err(p) => {
+            if p.is::<Unpolled>() || p.is::<Runaway>() {
+                Err(UNPOLLED_TEXT.to_string())
+            } else {
+                let loc = crate::fw::LAST_PANIC_LOC.with(|l| l.borrow_mut().take()).unwrap_or_default();
+                Err(format!("panic: {} {loc}", crate::fw::panic_message(&*p)))
+            }
+        }
+    }
+}
+
+pub const UNPOLLED_TEXT: &str = "visits more than 10 million search nodes without consulting its time limit once (it cannot stop when the limit expires: does not terminate)";
 
 thread_local! {
     /// set once a search was observed to emit no "start depth" event at all
@@ -304,7 +390,7 @@ pub fn profile(board: &Board, tf: &ThreeFold, cap: u64, stop_depth: u64, positio
     STOP_AT_DEPTH.with(|s| s.set(Some(stop_depth)));
     // the first observed run of a worker uses a small cap: if the pass events are missing we
     // find out cheaply
-    let r = tracing::subscriber::with_default(PassObserver, || run_search(board, tf, cap, positional));
+    let r = observed(|| run_search(board, tf, cap, positional));
     STOP_AT_DEPTH.with(|s| s.set(None));
     let forced = FORCE_EXPIRE.with(|f| f.get());
     let (result, max_depth, total_polls, _expired) = r?;
@@ -365,17 +451,17 @@ impl Visit for FormatAll {
 
 impl Subscriber for LoudSubscriber {
     fn register_callsite(&self, meta: &'static Metadata<'static>) -> Interest {
-        if *meta.level() <= tracing::Level::DEBUG {
+        if *meta.level() <= tracing::Level::DEBUG || is_node_event(meta) {
             Interest::always()
         } else {
             Interest::never()
         }
     }
     fn enabled(&self, meta: &Metadata<'_>) -> bool {
-        *meta.level() <= tracing::Level::DEBUG
+        *meta.level() <= tracing::Level::DEBUG || is_node_event(meta)
     }
     fn max_level_hint(&self) -> Option<tracing::level_filters::LevelFilter> {
-        Some(tracing::level_filters::LevelFilter::DEBUG)
+        Some(if node_mode() { tracing::level_filters::LevelFilter::TRACE } else { tracing::level_filters::LevelFilter::DEBUG })
     }
     fn new_span(&self, _: &Attributes<'_>) -> Id {
         Id::from_u64(1)
@@ -383,6 +469,10 @@ impl Subscriber for LoudSubscriber {
     fn record(&self, _: &Id, _: &Record<'_>) {}
     fn record_follows_from(&self, _: &Id, _: &Id) {}
     fn event(&self, event: &Event<'_>) {
+        if *event.metadata().level() == tracing::Level::TRACE {
+            count_node_event();
+            return;
+        }
         let mut v = FormatAll(0);
         event.record(&mut v);
     }
@@ -392,5 +482,9 @@ impl Subscriber for LoudSubscriber {
 
 /// the same search with INFO/DEBUG logging enabled and every event field formatted
 pub fn run_search_loud(board: &Board, tf: &ThreeFold, limit: u64, positional: bool) -> Result<((Option<ChessMove>, Score), u16, u64, bool), SearchError> {
-    tracing::subscriber::with_default(LoudSubscriber, || run_search(board, tf, limit, positional))
+    OBS_NEST.with(|n| n.set(n.get() + 1));
+    EVENTS_SINCE_POLL.with(|c| c.set(0));
+    let r = tracing::subscriber::with_default(LoudSubscriber, || run_search(board, tf, limit, positional));
+    OBS_NEST.with(|n| n.set(n.get() - 1));
+    r
 }
